@@ -360,34 +360,62 @@ def replay_ptt(case):
     return out
 
 
-def make_gibbs(n):
+def make_gibbs(n, fail_call=None, counter=None):
+    """GibbsTempo whose spectral density is a user callable (CustomSD) that may raise once, at its fail_call-th
+    evaluation after the object has been built"""
     import oqupy
-    corr = oqupy.PowerLawSD(alpha=0.2, zeta=1.0, cutoff=3.0, cutoff_type="exponential", temperature=0.8)
+    cnt = counter if counter is not None else {"n": 0}
+    cnt.setdefault("armed", False)
+
+    class Transient(Exception):
+        pass
+
+    def jw(w):
+        if cnt["armed"]:
+            cnt["n"] += 1
+            if fail_call is not None and cnt["n"] == fail_call:
+                raise Transient("spectral density failed at evaluation %d" % fail_call)
+        return 2 * 0.2 * w
+    corr = oqupy.CustomSD(jw, 3.0, cutoff_type="exponential", temperature=0.8)
     bath = oqupy.Bath(np.diag([0.5, -0.5]), corr)
     sysm = oqupy.System(0.4 * SX + 0.3 * SZ)
-    return oqupy.GibbsTempo(sysm, bath, oqupy.GibbsParameters(n_steps=n, epsrel=1e-10))
+    g = oqupy.GibbsTempo(sysm, bath, oqupy.GibbsParameters(n_steps=n, epsrel=1e-10))
+    cnt["armed"] = True
+    return g
 
 
 def replay_gibbs(case):
     n = case["N"]
-    r = make_gibbs(n)
+    cnt = {"n": 0}
+    r = make_gibbs(n, counter=cnt)
     r.compute(progress_type="silent")
+    total = cnt["n"]
     ref_state = r.get_state()
     ref_len = len(r.get_dynamics().times)
-    obj = make_gibbs(n)
+    fail = tuple(case["fail"])
+    fail_call = None
+    if fail[0] != 99:
+        # the k-th of 12 failure points spread over all evaluations of the spectral density during compute()
+        fail_call = 1 + int((fail[0] + 0.5) / 12.0 * total)
+    obj = make_gibbs(n, fail_call=fail_call)
     out = []
     for idx, h in enumerate(case["hist"]):
         raised = False
-        st = None
         try:
             if h["op"] == "compute":
                 obj.compute(progress_type="silent")
             else:
-                st = obj.get_state()
+                obj.get_state()
         except Exception as ex:  # pylint: disable=broad-except
             raised = True
-            out.append({"what": "raised", "call": idx, "detail": "%s: %s" % (type(ex).__name__, ex)})
+            if not h["raised"]:
+                out.append({"what": "raised", "call": idx, "detail": "%s: %s" % (type(ex).__name__, ex)})
+                break
+        if h["raised"] and not raised:
+            out.append({"what": "harness-exception", "detail": "the injected failure did not fire (call %s of %d)" % (fail_call, total)})
             break
+        if raised:
+            continue                 # a failed call: judged by what the repeated call gives
         nrec = len(obj.get_dynamics().times)
         if nrec != h["nrec"] or nrec != ref_len:
             out.append({"what": "nrec", "call": idx, "expected": h["nrec"], "observed": nrec})
@@ -425,7 +453,7 @@ KINDS = {
            "MFMutateBeforeField", ["MFMutateBeforeField"]),
     "tebd": ('{<<99,"none">>}', "SUBSET (0..MaxStep)", "RestartReappliesPre", ["RestartReappliesPre"]),
     "ptt": ('{<<99,"none">>}', "{{}}", None, ["SecondComputeRaises"]),
-    "gibbs": ('{<<99,"none">>}', "{{}}", None, ["GibbsRecompute"]),
+    "gibbs": ('{<<99,"none">>} \\cup {<<k,"J">> : k \\in 0..11}', "{{}}", None, ["GibbsRecompute", "RecordBeforeEval"]),
 }
 KNOWN_KEY = {"MFMutateBeforeField": "C14:mf:field-stage-failure-retry-differs",
              "RestartReappliesPre": "C14:tebd:restart-at-pre-control-step"}
